@@ -546,7 +546,12 @@ def lazy_iterators(ctx: Ctx):
                 continue
             for a in list(node.args) + [k.value for k in node.keywords]:
                 n += 1
-                lazy = isinstance(a, ast.GeneratorExp) or (isinstance(a, ast.Call) and (dotted(a.func) or "") in LAZY)
+                vals = [a]
+                if isinstance(a, ast.Name):  # a local: every value it is bound to in this function
+                    vals = [x.value for x in ast.walk(fn.node) if isinstance(x, (ast.Assign, ast.AnnAssign, ast.NamedExpr)) and getattr(x, "value", None) is not None
+                            and any(isinstance(t, ast.Name) and t.id == a.id for t in (x.targets if isinstance(x, ast.Assign) else [x.target]))]
+                vals = [v.body if isinstance(v, ast.IfExp) else v for v in vals] + [v.orelse for v in vals if isinstance(v, ast.IfExp)]
+                lazy = any(isinstance(v, ast.GeneratorExp) or (isinstance(v, ast.Call) and (dotted(v.func) or "") in LAZY) for v in vals)
                 if lazy:
                     ctx.violation("D5", "IM.lazy-iterator", f"{fn.qualname}: {base}(... {flow.dump(a)[:50]} ...)", fn, a,
                                   why="a one-shot iterator is stored in an immutable-looking object: the first use consumes it, so using the same saved object twice gives different results",
